@@ -119,8 +119,17 @@ def rbytes(rng, n):
     return bytes(rng.below(256) for _ in range(n))
 
 
+FORCE = {"len": None}
+
+
 def pick_len(rng):
+    if FORCE["len"] is not None:  # the first variable-length field of the frame gets the forced length
+        l, FORCE["len"] = FORCE["len"], None
+        return l
     return rng.choice([0, 1, 2, rng.below(40), rng.below(40), 252, 253, 300])
+
+
+OM_HOP_LENS = [0, 1, 65, 1300, 4095, 4096, 4097, 5000, 8191, 8192, 8193]
 
 
 def gen_base(rng, b, keys):
@@ -151,6 +160,10 @@ def gen_base(rng, b, keys):
     if k == "BOnion":
         key = rng.choice(keys) if rng.chance(4, 5) else bytes(33)
         return bytes([rng.below(2)]) + key + rbytes(rng, 1300) + rbytes(rng, 32)
+    if k == "BOmPacket":
+        hop = pick_len(rng) if FORCE["len"] is not None else rng.choice(OM_HOP_LENS[:8])
+        pkt = bytes([rng.below(2)]) + rng.choice(keys) + rbytes(rng, hop) + rbytes(rng, 32)
+        return len(pkt).to_bytes(2, "big") + pkt
     if k == "BBig":
         return bigsize(rng.choice([0, 0xFC, 0xFD, 0xFFFF, 0x10000, 0xFFFFFFFF, 0x100000000, 2 ** 64 - 1]))
     raise ValueError(k)
@@ -296,6 +309,28 @@ def build_cases(ctx, meta, keys, gen_frames):
         # random payloads for this type
         for _ in range(3 if quick else 30):
             cases.add("random", s["name"], suffix=s["type"].to_bytes(2, "big") + rbytes(rng, rng.below(120)))
+    # lengths straddling every buffer/chunk constant found in the decoder sources (k-1, k, k+1, 2k-1, 2k+1):
+    # each threshold is given to the first variable-length field of a schema that has one (round-robin in the
+    # quick tier, every such schema in the thorough tier); onion messages get every hop_data length
+    var_schemas = [s for s in meta["schemas"] if any(("BVarCL" in c or "BVar16" in c or "BUtf8" in c) for _, c in s["write"]["fixed"])]
+    cap = 4097 if quick else 8193
+    thr = [t for t in meta.get("length_thresholds", []) if t <= cap]
+    for ti, t in enumerate(thr):
+        targets = [var_schemas[ti % len(var_schemas)]] if (quick and var_schemas) else var_schemas
+        for s in targets:
+            FORCE["len"] = t
+            fr, info = gen_frame(rng, s, keys, subset=0)
+            FORCE["len"] = None
+            cases.add("threshold_len", s["name"], suffix=fr, expect_payload=fr[2:])
+    for s in meta["schemas"]:
+        if any("BOmPacket" in c for _, c in s["write"]["fixed"]):
+            for hop in OM_HOP_LENS + [t for t in thr if t > 8193]:
+                FORCE["len"] = hop
+                fr, info = gen_frame(rng, s, keys)
+                FORCE["len"] = None
+                cases.add("threshold_len", s["name"], suffix=fr, expect_payload=fr[2:])
+                # one byte short / one byte of slack: the declared packet length no longer matches
+                cases.add("trunc", s["name"], suffix=fr[:-1])
     # frames of values built by the Rust generator (irregular codecs): valid + truncations + mutations
     nmut = 22 if quick else 150
     for gi, (name, fr, ok) in enumerate(gen_frames):
@@ -461,14 +496,14 @@ def judge_impl(cases, impl):
                 why = "reported more unread bytes than the frame holds"
             elif c.get("expect_err"):
                 why = "accepted a frame that must be rejected with " + c["expect_err"]
-            elif c.get("expect_payload") is not None and c["kind"] in ("valid", "gen") and r["payload"] != c["expect_payload"] and not r["unknown"]:
+            elif c.get("expect_payload") is not None and c["kind"] in ("valid", "gen", "threshold_len") and r["payload"] != c["expect_payload"] and not r["unknown"]:
                 why = "canonical encoding does not decode/re-encode to itself"
             elif c.get("expect_payload") is not None and c["kind"] == "ext_odd" and r["payload"] != c["expect_payload"]:
                 why = "unknown odd TLV was not ignored (decoded message differs from the one without it)"
             elif c.get("expect_unknown") is not None and not (r["unknown"] and r["type"] == c["expect_unknown"]):
                 why = "unassigned message type not reported as Unknown"
         else:
-            if c["kind"] in ("valid", "gen", "ext_odd"):
+            if c["kind"] in ("valid", "gen", "ext_odd", "threshold_len"):
                 why = "valid frame rejected with " + r["err"]
             elif c.get("expect_err") and r["err"] != c["expect_err"]:
                 why = "rejected with %s instead of %s" % (r["err"], c["expect_err"])
@@ -524,7 +559,8 @@ def field_tier(ctx, okm, release=False):
     """Field codecs outside a frame (h_wire fields): judged round trips at every length threshold, and
     CollectionLength / BigSize / SocketAddress encode+decode diffed against the model.
     Returns (judge failures, model disagreements, counts)."""
-    rc, lines = ctx.run_bin("h_wire", "", args=["fields", str(ctx.seed)], timeout=900, release=release)
+    thr = ",".join(str(t) for t in (getattr(ctx, "gen_meta", None) or {}).get("length_thresholds", []))
+    rc, lines = ctx.run_bin("h_wire", "", args=["fields", str(ctx.seed)] + ([thr] if thr else []), timeout=900, release=release)
     rows = [l.split() for l in lines if l.startswith("F ")]
     fails, dis = [], []
     tag = "release" if release else "debug"
@@ -539,6 +575,12 @@ def field_tier(ctx, okm, release=False):
             if r[4] != "ok":
                 fails.append({"why": "field codec round trip at a length threshold: %s (%s build)" % (r[4], tag), "kind": "fields", "message": r[2], "param": r[3], "frame": "",
                               "replay": "h_wire fields %d | grep 'F RT %s %s'" % (ctx.seed, r[2], r[3])})
+        elif r[1] == "HOSTMSG":
+            # F HOSTMSG <msg:tag@pos> <name hex> <expect_ok|expect_reject> <result>
+            if (r[4] == "expect_reject" and not r[5].startswith("Err_")) or (r[4] == "expect_ok" and r[5] != "Ok"):
+                fails.append({"why": "hostname with a byte outside [A-Za-z0-9._-] %s inside %s (%s build)" % ("was ACCEPTED" if r[5] == "Ok" else "gave " + r[5], r[2].split(":")[0], tag) if r[4] == "expect_reject"
+                              else "valid hostname gave %s inside %s (%s build)" % (r[5], r[2].split(":")[0], tag),
+                              "kind": "fields", "message": r[2], "param": bytes.fromhex(r[3]).decode("utf-8", "replace"), "frame": r[3]})
         elif "PANIC" in r:
             fails.append({"why": "field codec panicked (%s build)" % tag, "kind": "fields", "message": r[1], "param": r[2], "frame": ""})
         elif r[1] == "CL":
@@ -563,6 +605,17 @@ def field_tier(ctx, okm, release=False):
                 want = ["Ok", str(n), "0"]
             if got is not None and got != want:
                 fails.append({"why": "%s: encoding of %d decodes as %s (%s build)" % (name, n, " ".join(got), tag), "kind": "fields", "message": name, "param": str(n), "frame": h})
+    # the BOLT 7 rule (LDK also admits '_'): a hostname descriptor decodes iff every byte of the name is an ASCII
+    # alphanumeric, '.', '-' or '_' -- judged on the implementation alone
+    allowed = set(b"ABCDEFGHIJKLMNOPQRSTUVWXYZabcdefghijklmnopqrstuvwxyz0123456789.-_")
+    for h, res in sa:
+        b = bytes.fromhex(h)
+        if len(b) >= 2 and b[0] == 5 and len(b) >= 2 + b[1] + 2:
+            name = b[2:2 + b[1]]
+            want_ok = all(x in allowed for x in name)
+            if want_ok != (res[0] == "Ok"):
+                fails.append({"why": "SocketAddress hostname %s although %s (%s build)" % ("ACCEPTED" if res[0] == "Ok" else "rejected with " + " ".join(res), "a byte is outside [A-Za-z0-9._-]" if not want_ok else "every byte is in [A-Za-z0-9._-]", tag),
+                              "kind": "fields", "message": "SocketAddress", "param": name.decode("utf-8", "replace"), "frame": h})
     if not okm or release:
         return fails, dis, counts
     def q(h):
